@@ -7,6 +7,10 @@ package serverinterceptors
 //   obs:  ret=<what the interceptor returned> ran=<0/1> early=<resolutions seen while the handler ran>
 //         pass=<n> fail=<n> allows=<n> st=<total>/<pass>/<drop>   (deltas of the package's SheddingStat; "reset" if the
 //         once-a-minute reporter zeroed it during the call)
+//   ops:  real depth=<1..4> err=<kind> panic=<0/1>   the REAL adaptive shedder of the section (state kept between calls)
+//             behind the interceptor; the handler re-enters the interceptor depth-1 times (nested calls), the innermost
+//             one returns err / panics
+//   obs:  ran=<n> peak=<flying seen by the innermost handler> flying=<after> avg=<n/d after> st=
 // error kinds: nil deadline wrapped joined canceled stdeadline internal unavailable exhausted plain
 // ret: nil | same (the handler's own error, unchanged) | ResourceExhausted:<message> | panic | other:<text>
 
@@ -15,6 +19,7 @@ import (
 	"errors"
 	"fmt"
 	"io"
+	"math/big"
 	"reflect"
 	"strings"
 	"testing"
@@ -44,6 +49,13 @@ func (s *c02Shedder) Allow() (load.Promise, error) {
 		return nil, load.ErrServiceOverloaded
 	}
 	return c02Promise{s}, nil
+}
+
+// c02Real reads the in-flight counter and its moving average of a real adaptive shedder (unexported fields, read-only).
+func c02Real(sh load.Shedder) (int64, string) {
+	v := reflect.ValueOf(sh).Elem()
+	r := new(big.Rat).SetFloat64(v.FieldByName("avgFlying").Float())
+	return v.FieldByName("flying").Int(), r.RatString()
 }
 
 var c02ErrKinds = []string{"nil", "nil", "deadline", "deadline", "wrapped", "joined", "canceled", "stdeadline",
@@ -91,6 +103,17 @@ func c02rGen(r *verifh.Rng) []verifh.Section {
 		}
 		secs = append(secs, verifh.Section{Cfg: "handler=rpc", Ops: ops})
 	}
+	for i := 0; i < verifh.Scale(8, 40); i++ {
+		var ops []string
+		for j := 0; j < r.Range(6, 30); j++ {
+			pn := 0
+			if r.Chance(1, 3) {
+				pn = 1
+			}
+			ops = append(ops, fmt.Sprintf("real depth=%d err=%s panic=%d", r.Pick(1, 1, 2, 3, 4), c02ErrKinds[r.Intn(len(c02ErrKinds))], pn))
+		}
+		secs = append(secs, verifh.Section{Cfg: "handler=rpc real=1", Ops: ops})
+	}
 	return secs
 }
 
@@ -110,15 +133,52 @@ func TestVerifC02R(t *testing.T) {
 	metrics := stat.NewMetrics("verif-c02")
 	secs := verifh.Sections(c02rGen)
 	verifh.Run(t, secs, func(cfg verifh.Cfg) (func(op []string) string, func()) {
+		var real load.Shedder
+		if cfg.Int("real", 0) == 1 {
+			real = load.NewAdaptiveShedder(load.WithCpuThreshold(1 << 40))
+		}
 		step := func(op []string) string {
-			if op[0] != "rpc" {
-				return "bad-op"
-			}
 			kv := map[string]string{}
 			for _, tok := range op[1:] {
 				if i := strings.IndexByte(tok, '='); i > 0 {
 					kv[tok[:i]] = tok[i+1:]
 				}
+			}
+			if op[0] == "real" && real != nil {
+				depth := verifh.Atoi(kv["depth"])
+				herr := c02Err(kv["err"])
+				ran, level := 0, 0
+				var peak int64
+				var ic grpc.UnaryServerInterceptor
+				var handler grpc.UnaryHandler
+				handler = func(ctx context.Context, req any) (any, error) {
+					ran++
+					level++
+					if level < depth {
+						return ic(ctx, req, &grpc.UnaryServerInfo{FullMethod: "/verif/c02"}, handler)
+					}
+					peak, _ = c02Real(real)
+					if kv["panic"] == "1" {
+						panic("verif")
+					}
+					return "v", herr
+				}
+				ic = UnarySheddingInterceptor(real, metrics)
+				before := c02Stat()
+				func() {
+					defer func() { recover() }()
+					ic(context.Background(), "req", &grpc.UnaryServerInfo{FullMethod: "/verif/c02"}, handler)
+				}()
+				after := c02Stat()
+				st := fmt.Sprintf("%d/%d/%d", after[0]-before[0], after[1]-before[1], after[2]-before[2])
+				if after[0] < before[0] || after[1] < before[1] || after[2] < before[2] {
+					st = "reset"
+				}
+				fl, avg := c02Real(real)
+				return fmt.Sprintf("ran=%d peak=%d flying=%d avg=%s st=%s", ran, peak, fl, avg, st)
+			}
+			if op[0] != "rpc" {
+				return "bad-op"
 			}
 			sh := &c02Shedder{allow: kv["allow"] == "1"}
 			herr := c02Err(kv["err"])
